@@ -477,7 +477,19 @@ func runC11(w *azWorld) {
 			}
 			c.Probe("keygen-over-http")
 		} else {
-			r, _ = world.Request(c, cl, "keygen", map[string]any{"key": p.key, "channel": chanStr, "type": typ, "ttl": ttl})
+			// a request may leave fields out: no type asks for no permission, no ttl for no expiry
+			body := map[string]any{"key": p.key, "channel": chanStr, "type": typ, "ttl": ttl}
+			if t.Chance(1, 6) {
+				delete(body, "type")
+				typ = ""
+				c.Probe("keygen-request-without-type")
+			}
+			if t.Chance(1, 8) {
+				delete(body, "ttl")
+				ttl = 0
+				c.Probe("keygen-request-without-ttl")
+			}
+			r, _ = world.Request(c, cl, "keygen", body)
 		}
 		ok := r != nil && r.Status == 200
 		c.Logf("c%d keygen parent=%s channel=%s type=%q ttl=%d -> ok=%v", ci, p.name, chanStr, typ, ttl, ok)
